@@ -16,7 +16,7 @@
    Without the hypothesis history independence is false for the code as it is
    (known finding collision-bucket-insertion-order): Pinned.bucket_order_refuted. *)
 From Coq Require Import List ZArith Bool Sorted Lia.
-From GZ Require Import C15.Model C15.Cluster C15.Conc C15.Check C15.Proofs C15.ProofsB C15.ProofsC C15.ProofsD C15.ProofsE.
+From GZ Require Import C15.Model C15.Cluster C15.Conc C15.Check C15.Proofs C15.ProofsB C15.ProofsC C15.ProofsD C15.ProofsE C15.Pinned.
 Import ListNotations.
 Open Scope Z_scope.
 
@@ -437,3 +437,28 @@ Example race_example :
   ring (snd (lts_run cf_hash 100 race_threads [0; 1; 1; 0; 2]%nat)) = [] /\
   finished (lts_run cf_hash 100 race_threads [0; 1; 1; 0; 2]%nat) = true.
 Proof. vm_compute. auto. Qed.
+
+(* ---- Get among the membership actions: linearisability --------------------------------------------
+   At HEAD the whole body of Get — slot lookup, both evaluations of the key, member pick — is under the
+   read lock: against the write-locked critical sections it is one atomic step ([CGet]).  For EVERY
+   interleaving of lookups and membership actions, every answer of every lookup is Get's answer in a
+   membership state the execution goes through ([acts] is a prefix of the membership trace: the state
+   at the lookup's own step, inside the call).  Hence it is never a panic, never nil-with-ok, never a
+   value outside every membership state: its node is in the node set of that state, it sits in a bucket
+   of an existing key, and it owns the cyclic successor slot among the layers present then. *)
+Theorem concurrent_get_linearizable : forall vh R l g, In g (snd (grun vh R init l)) ->
+  exists acts rest hp ihp,
+    membership l = acts ++ rest /\ g = get (arun vh R acts) hp ihp /\ g <> GPanic /\
+    (g = GNone <-> ring (arun vh R acts) = []) /\
+    forall x, g = GSome x ->
+      In (nrepr x) (nodes (arun vh R acts)) /\
+      (exists h, In h (keys (arun vh R acts)) /\ In x (bucket h (ring (arun vh R acts)))) /\
+      exists k, LiveL vh (amap_acts R acts) x k /\ is_succ (live_hashL vh (amap_acts R acts)) hp k.
+Proof. exact get_linearizable_l. Qed.
+Print Assumptions concurrent_get_linearizable.
+
+(* a lookup before and one after a Remove on a shared slot *)
+Example lookup_example :
+  snd (grun three_way_hash 3 init
+         (map CAct c157_pre ++ [CGet 5 1; CAct (ARemove 2); CGet 5 1])) = [GSome (mkNode 2 2); GSome (mkNode 1 1)].
+Proof. vm_compute. reflexivity. Qed.
